@@ -248,6 +248,17 @@ def hostile_streams(rng, tier):
         ("valid-then-unknown", ok_set2 + b"*1\r\n$4\r\nQUIT\r\n" + req_bytes(("SET", b"never", b"x"))),
         ("valid-then-truncated", ok_set + req_bytes(("SET", b"h", b"2"))[:-1]),
         ("lf-in-simple", b"+a\nb\r\n"),
+        ("del-good-then-nonutf8", ok_set + b"*3\r\n$3\r\nDEL\r\n$1\r\nh\r\n$2\r\n\xff\xfe\r\n"),
+        ("del-good-then-integer", ok_set + b"*3\r\n$3\r\nDEL\r\n$1\r\nh\r\n:5\r\n"),
+        ("del-good-then-null", ok_set + b"*4\r\n$3\r\nDEL\r\n$1\r\nh\r\n$-1\r\n$2\r\nh2\r\n"),
+        ("del-good-then-nested", ok_set + b"*3\r\n$3\r\nDEL\r\n$1\r\nh\r\n*1\r\n$1\r\nh\r\n"),
+        ("del-bad-first", ok_set + b"*3\r\n$3\r\nDEL\r\n$1\r\n\xc0\r\n$1\r\nh\r\n"),
+        ("set-value-not-bulk", b"*3\r\n$3\r\nSET\r\n$1\r\nh\r\n:7\r\n"),
+        ("set-key-not-bulk", b"*3\r\n$3\r\nSET\r\n+h\r\n$1\r\nv\r\n"),
+        ("get-key-simple", ok_set + b"*2\r\n$3\r\nGET\r\n+h\r\n"),
+        ("cmd-name-not-bulk", b"*2\r\n+GET\r\n$1\r\nh\r\n"),
+        ("cmd-name-mixed-case", b"*2\r\n$3\r\nGet\r\n$1\r\nh\r\n"),
+        ("cmd-name-longer", b"*2\r\n$4\r\nGETX\r\n$1\r\nh\r\n"),
         ("empty", b""),
         ("crlf-only", b"\r\n"),
         ("bulk-no-crlf", b"*2\r\n$3\r\nGET\r\n$1\r\nhXY"),
@@ -364,6 +375,29 @@ def run_c10(rep, tier, seed):
                 mi = len(model_lines) - len(ctl_map_keys) + j
                 if impl[fin + 1 + j] != model[mi]:
                     viol("oracle", "stored data differs from what the well-formed SET/DEL commands produce", [impl_lines[fin + 1 + j]], model[mi], impl[fin + 1 + j])
+    # command layer on its own: frames -> Command::try_from, model vs real code (valid and near-valid command frames)
+    from p_resp import frame_text, both as resp_both
+    names = [b"GET", b"SET", b"DEL", b"get", b"Get", b"PING", b"", b"GETX", b"DE"]
+    elems = [("B", b"k"), ("B", b""), ("B", b"\xff\xfe"), ("B", "é".encode()), ("I", 5), ("N",), ("S", b"k"), ("E", b"e"), ("A", [("B", b"k")]), ("B", b"v" * 50)]
+    cl = []
+    for nm in names:
+        for n in range(0, 4):
+            for _ in range(6 if tier == "quick" else 40):
+                args = [rng.choice(elems) for _ in range(n)]
+                first = ("B", nm) if rng.random() < 0.9 else rng.choice(elems)
+                cl.append("cmd " + frame_text(("A", [first] + args)))
+    for f in [("B", b"GET"), ("N",), ("I", 1), ("S", b"GET"), ("A", [])]:
+        cl.append("cmd " + frame_text(f))
+    cl = sorted(set(cl))
+    ci, cm, cd = resp_both(cl)
+    rep.cov["evaluations"] += len(cl)
+    rep.count("command_frames", len(cl))
+    if cd is not None:
+        viol("oracle", f"the command parser died ({cd.why})", [cl[len(ci)]], cm[len(ci)], "process death")
+    for l, a, m_ in zip(cl, ci, cm):
+        rep.count("cmd:" + a.split(" ")[0] + ("-" + a.split(" ")[1] if a.startswith("err") else ""))
+        if a != m_:
+            viol("correspondence" if "panic" not in a else "oracle", "Command::try_from differs from the model on a command frame (a frame that is not a well-formed command must be rejected as a whole)", [l], m_, a)
     rep.cov["traces_validated_against_impl"] = len(hostile)
     rep.cov["rule"] = ("%d misbehaving byte streams (garbage, unknown/lower-case commands, wrong arity, non-UTF-8 keys, non-array / nested frames, truncated frames then close, sign-only numbers, "
                        "19-20 digit and negative lengths, nesting depth 33 and 200000, valid commands followed by garbage, random mutations of valid requests), each on its own connection, "
